@@ -78,7 +78,17 @@ def gen_program(rng, profile, index=None):
                         'out': _w(rng, [('return', 7), ('raise', 3)]),
                         'delay': _w(rng, [(0.0, 4), (Q, 3), (4 * Q, 2), (1.0, 1)]),
                         'start': _w(rng, [(0.0, 6), (Q, 2), (4 * Q, 1)])})
-    return {'world': 'cross', 'target': target, 'callers': callers}
+    prog = {'world': 'cross', 'target': target, 'callers': callers}
+    if target in ('idle', 'running') and rng.random() < 0.35:
+        # a second phase on the SAME target loop, in the other state: state left behind by phase 1 (registries, locks) matters
+        t2 = 'running' if target == 'idle' else _w(rng, [('idle', 1), ('running', 1)])
+        c2 = []
+        for _ in range(_w(rng, [(1, 3), (2, 3)])):
+            c2.append({'fn': 'ensure_aw', 'kind': _w(rng, [('coro', 5), ('future', 2), ('task', 2)]),
+                       'out': _w(rng, [('return', 7), ('raise', 3)]),
+                       'delay': _w(rng, [(0.0, 4), (Q, 3), (4 * Q, 2)]), 'start': _w(rng, [(0.0, 6), (Q, 2)])})
+        prog['phase2'] = {'target': t2, 'callers': c2}
+    return prog
 
 
 class CallerState:
@@ -93,6 +103,7 @@ class CallerState:
         self.exc = None
         self.started = False
         self.t_done = None
+        self.phase = 1
 
 
 class CrossWorld:
@@ -102,6 +113,11 @@ class CrossWorld:
         self.sch = sch
         self.aa = aa
         self.cs = [CallerState(i, c) for i, c in enumerate(prog['callers'])]
+        self.phase = 1
+        for c in (prog.get('phase2') or {}).get('callers', ()):
+            C = CallerState(len(self.cs), c)
+            C.phase = 2
+            self.cs.append(C)
         self.violations = []
         self.harness_errors = []
         self.end = None
@@ -159,8 +175,8 @@ class CrossWorld:
         spec = C.spec
         if spec['start']:
             await asyncio.sleep(spec['start'])
-        tgt = own_loop if self.prog['target'] == 'own' else self.target
-        if self.prog['target'] == 'own':
+        tgt = own_loop if self.tstate() == 'own' else self.target
+        if self.tstate() == 'own':
             aw = self.make_aw(C, own_loop)
         elif spec['kind'] == 'coro':
             aw = self.body(C)
@@ -195,14 +211,17 @@ class CrossWorld:
         except BaseException as e:  # noqa
             self.harness_errors.append(f'caller {C.i}: {type(e).__name__}: {e}')
 
-    def main(self):
+    def tstate(self):
+        return self.prog['target'] if self.phase == 1 else self.prog['phase2']['target']
+
+    def run_phase(self, tstate, cs):
         sch = self.sch
         aa = self.aa
-        tstate = self.prog['target']
         stop = None
         if tstate != 'own':
-            self.target = SimLoop()
-            for C in self.cs:
+            if self.target is None:
+                self.target = SimLoop()
+            for C in cs:
                 if C.spec['kind'] != 'coro':
                     self.aws[C.i] = self.make_aw(C, self.target)
             if tstate == 'closed':
@@ -212,19 +231,27 @@ class CrossWorld:
                 if not self.target.is_running():
                     self.viol('loop_in_thread.returned_before_running', 'loop_in_thread returned before the loop was running',
                               f'step {sch.step}')
-        ths = [sch.spawn(partial(self.caller_thread, C), f'caller{C.i}') for C in self.cs]
+        ths = [sch.spawn(partial(self.caller_thread, C), f'caller{C.i}') for C in cs]
         sch.join(ths)
         if stop is not None:
             stop()
             if self.target.is_running():
                 self.viol('loop_in_thread.stopper_returned_while_running', 'the stop function returned while the loop still runs',
                           f'step {sch.step}')
-        aa._CROSS_LOOP_POOL.shutdown(wait=True)
+
+    def main(self):
+        sch = self.sch
+        self.run_phase(self.prog['target'], [C for C in self.cs if C.phase == 1])
+        if self.prog.get('phase2'):
+            self.phase = 2
+            sch.log('phase2')
+            self.run_phase(self.prog['phase2']['target'], [C for C in self.cs if C.phase == 2])
+        self.aa._CROSS_LOOP_POOL.shutdown(wait=True)
 
     # ----------------------------------------------------------------- judge
     def judge(self, probe_log):
         sch = self.sch
-        tstate = self.prog['target']
+        tstate = self.tstate()
         for e in self.harness_errors:
             self.violations.append({'property': 'HARNESS', 'oracle': 'harness.error', 'signature': 'harness error',
                                     'detail': e, 'features': {}})
@@ -239,6 +266,7 @@ class CrossWorld:
                 helpers = sum(1 for name, tid in probe_log if name == 'ensure_aw.idle_path')
                 self.viol('ensure_aw.hang', 'a cross-loop await never completes although its awaitable can',
                           f'caller {C.i} ({C.spec["fn"]} {C.spec["kind"]}, delay {C.spec["delay"]}) on target "{tstate}" still '
+                          f'(phase {C.phase} of {2 if self.prog.get("phase2") else 1}) '
                           f'pending; run ended {self.end} at t={sch.clock}; it took branch "{branch}"; awaitable started='
                           f'{C.started}; {helpers} caller(s) ran the target in a helper thread',
                           target=tstate, stuck_branch=branch, concurrent_callers=len(self.cs) >= 2,
@@ -253,6 +281,7 @@ class CrossWorld:
             if C.outcome is None:
                 continue
             o = C.outcome
+            tstate = self.prog['target'] if C.phase == 1 else self.prog['phase2']['target']
             if tstate == 'closed':
                 if not (o[0] == 'exc' and isinstance(o[1], RuntimeError)):
                     self.viol('ensure_aw.closed_target', 'a closed target did not raise RuntimeError',
